@@ -41,7 +41,7 @@ def mc_case(draw, sub):
             b = base2[i % len(base2)]
             r2.append([f"r{i}x" + b[0][b[0].index("x") + 1:], b[1], b[2]])
     sc["r1"], sc["r2"] = r1, (r2 if base2 is not None else None)
-    if not sc["paired"] and sc["ad1"] and draw(st.booleans()):
+    if sc["ad1"] and draw(st.booleans()):  # paired runs write the files for R1
         sc["extra"] = draw(st.sampled_from([["--info-file", "info.tsv"], ["--rest-file", "rest.txt"],
                                             ["--wildcard-file", "wc.txt"],
                                             ["--info-file", "info.tsv", "--rest-file", "rest.txt"]]))
